@@ -158,11 +158,14 @@ pub struct SrvCfg {
 	/// SRV-LOW: WebSocket connections are served through the low-level `jsonrpsee_server::ws::connect` (as in the
 	/// repository's `jsonrpsee_server_low_level_api` example) instead of the `TowerService`
 	pub low_ws: bool,
+	/// the id provider hands out the same subscription id every time (ids may be reused once a subscription has ended);
+	/// handler log tags then carry `#<script index>` to tell the instances apart
+	pub const_ids: bool,
 }
 
 impl Default for SrvCfg {
 	fn default() -> Self {
-		SrvCfg { conns: vec![], scripts: vec![], stop: false, stop_twice: false, drop_handles: false, max_subs: 16, max_conns: 16, buffer: 16, slow_steps: 1, connect_points: false, tcp: false, max_resp: 0, wide_ids: 0, ping_ms: None, low_ws: false }
+		SrvCfg { conns: vec![], scripts: vec![], stop: false, stop_twice: false, drop_handles: false, max_subs: 16, max_conns: 16, buffer: 16, slow_steps: 1, connect_points: false, tcp: false, max_resp: 0, wide_ids: 0, ping_ms: None, low_ws: false, const_ids: false }
 	}
 }
 
@@ -176,6 +179,7 @@ pub struct SrvState {
 struct Ctx {
 	scripts: Vec<Vec<HStep>>,
 	slow_steps: usize,
+	tag_with_script: bool,
 }
 
 fn methods(ctx: Ctx) -> Methods {
@@ -204,7 +208,7 @@ fn methods(ctx: Ctx) -> Methods {
 		let script = ctx.scripts.get(script_idx).cloned().unwrap_or_default();
 		let conn = pending.connection_id().0;
 		let sid = serde_json::to_string(&pending.subscription_id()).unwrap();
-		let tag = format!("h:{conn}:{sid}");
+		let tag = if ctx.tag_with_script { format!("h:{conn}:{sid}#{script_idx}") } else { format!("h:{conn}:{sid}") };
 		sched::log(format!("{tag}:start"));
 		sched::log(format!("{tag}:script:{script_idx}"));
 		// the handler future ends by returning, by being dropped (the library cancels it when accept() was refused) or by unwinding
@@ -338,6 +342,16 @@ fn server_cfg(c: &SrvCfg) -> ServerConfig {
 			jsonrpsee_server::PingConfig::new().ping_interval(std::time::Duration::from_millis(ms)).inactive_limit(std::time::Duration::ZERO).max_failures(1),
 		);
 	}
+	if c.const_ids {
+		#[derive(Debug)]
+		struct ConstId;
+		impl jsonrpsee_server::IdProvider for ConstId {
+			fn next_id(&self) -> jsonrpsee_types::SubscriptionId<'static> {
+				jsonrpsee_types::SubscriptionId::Str("X".into())
+			}
+		}
+		return b.set_id_provider(ConstId).build();
+	}
 	if c.wide_ids > 0 {
 		b.set_id_provider(crate::srv::WideCounterIds(c.wide_ids, std::sync::atomic::AtomicU64::new(1))).build()
 	} else {
@@ -350,7 +364,7 @@ fn setup_tcp(cfg: &SrvCfg) -> SrvState {
 	let serve_done = Arc::new(Mutex::new(vec![true; cfg.conns.len()]));
 	let sub_ids: Arc<Mutex<HashMap<(usize, usize), Value>>> = Arc::new(Mutex::new(HashMap::new()));
 	let sub_notify = Arc::new(Notify::new());
-	let methods = methods(Ctx { scripts: cfg.scripts.clone(), slow_steps: cfg.slow_steps });
+	let methods = methods(Ctx { scripts: cfg.scripts.clone(), slow_steps: cfg.slow_steps, tag_with_script: cfg.const_ids });
 	// binding is synchronous: a std listener handed to the builder
 	let listener = std::net::TcpListener::bind("127.0.0.1:0").expect("bind loopback");
 	listener.set_nonblocking(true).unwrap();
@@ -418,7 +432,7 @@ pub fn setup(cfg: &SrvCfg) -> SrvState {
 	}
 	let (stop, handle) = stop_channel();
 	let builder = Server::builder().set_config(server_cfg(cfg)).to_service_builder();
-	let methods = methods(Ctx { scripts: cfg.scripts.clone(), slow_steps: cfg.slow_steps });
+	let methods = methods(Ctx { scripts: cfg.scripts.clone(), slow_steps: cfg.slow_steps, tag_with_script: cfg.const_ids });
 	let serve_done = Arc::new(Mutex::new(vec![false; cfg.conns.len()]));
 	let sub_ids: Arc<Mutex<HashMap<(usize, usize), Value>>> = Arc::new(Mutex::new(HashMap::new()));
 	let sub_notify = Arc::new(Notify::new());
